@@ -603,6 +603,7 @@ func p2Unique(r *Run, rep *core.Report, prop string, mm *core.MapModel) {
 
 func p3p5Core(r *Run, rep *core.Report, prop string, mm *core.MapModel) {
 	rep.Fn(fn(mm.Core))
+	p14SameBucket(r, rep, prop+".P14", mm)
 	for _, sp := range specsFor(r, mm.Core) {
 		cf := coreFlow(r, mm, sp)
 		rep.Spec(cf.Name)
@@ -1184,4 +1185,57 @@ func p10RMW(r *Run, rep *core.Report, prop string, mm *core.MapModel) {
 		})
 	}
 	rep.MinCount(prop+".P10", "packed-word rewrites", n, 3)
+}
+
+// p14SameBucket: one slot index is used with one bucket. Within the compute core every access to a slot array that
+// uses the same (non-constant) index value must go to the same bucket value: an index found by scanning bucket b and
+// then applied to the root bucket (or any other) reads or replaces a different key's slot.
+func p14SameBucket(r *Run, rep *core.Report, rule string, mm *core.MapModel) {
+	f := mm.Core
+	type use struct {
+		base ssa.Value
+		in   ssa.Instruction
+	}
+	groups := map[ssa.Value][]use{}
+	var order []ssa.Value
+	core.Instrs(f, func(in ssa.Instruction) {
+		ia, ok := in.(*ssa.IndexAddr)
+		if !ok {
+			return
+		}
+		if _, isArr := elemOf(ia.X.Type()).Underlying().(*types.Array); !isArr || !isBucketOwner(r, core.Addr(ia).Owner) {
+			return
+		}
+		idx := core.StripConv(ia.Index)
+		if _, isC := idx.(*ssa.Const); isC {
+			return
+		}
+		if _, seen := groups[idx]; !seen {
+			order = append(order, idx)
+		}
+		groups[idx] = append(groups[idx], use{core.StripConv(bucketOfAddr(ia)), in})
+	})
+	n := 0
+	for _, idx := range order {
+		us := groups[idx]
+		if len(us) < 2 {
+			continue
+		}
+		n++
+		bad := ""
+		var badIn ssa.Instruction
+		for _, u := range us[1:] {
+			if u.base != us[0].base {
+				bad = fmt.Sprintf("slot index %s is used with bucket %s at %s and with bucket %s here: an index found in one bucket addresses another key's slot in the other", idx.Name(), us[0].base.Name(), r.P.InstrPos(us[0].in), u.base.Name())
+				badIn = u.in
+				break
+			}
+		}
+		pos := r.P.InstrPos(us[0].in)
+		if badIn != nil {
+			pos = r.P.InstrPos(badIn)
+		}
+		rep.Check(bad == "", rule, fmt.Sprintf("%s slot index %s stays with one bucket", fn(f), idx.Name()), pos, fmt.Sprintf("all %d slot accesses with this index go to the same bucket value", len(us)), bad)
+	}
+	_ = n
 }
